@@ -191,6 +191,8 @@ func (t *scriptT) takeWoken() int {
 
 func (t *scriptT) armFail() { t.mu.Lock(); t.failOpen++; t.mu.Unlock() }
 
+func (t *scriptT) failBudget() int { t.mu.Lock(); defer t.mu.Unlock(); return t.failOpen }
+
 var errScriptedRead = thrift.NewTTransportException(thrift.UNKNOWN_TRANSPORT_EXCEPTION, "scripted: read error")
 
 func scriptedEOF() error { return thrift.NewTTransportExceptionFromError(io.EOF) }
@@ -1022,6 +1024,7 @@ func runAdp(hist []byte, cfg adpCfg) (string, []string) {
 			if c.monState != "parked" || held {
 				return "skip"
 			}
+			budget, wasOpen := c.tr.failBudget(), c.obsOpen()
 			c.monState = "busy"
 			c.hmu.Lock()
 			gate := c.monGate
@@ -1035,6 +1038,7 @@ func runAdp(hist []byte, cfg adpCfg) (string, []string) {
 					toks = append(toks, t)
 				}
 			}
+			c.checkOutage(toks, cfg, budget, wasOpen)
 			return c.report(nil, strings.Join(toks, ","))
 		}
 		return "skip"
@@ -1190,6 +1194,65 @@ func (c *adpCtl) checkInc(k int, vals []string, stillOpen bool) {
 	}
 }
 
+// checkOutage: the monitor's handling of ONE close, against what the policy allows — in both
+// directions. `budget` = how many of the next underlying Opens were going to fail when the runner was
+// released, `wasOpen` = somebody else had reopened the transport already (every attempt then fails
+// with ALREADY_OPEN). Every outage starts afresh: waits at InitialWait, attempt counter at 1.
+func (c *adpCtl) checkOutage(toks []string, cfg adpCfg, budget int, wasOpen bool) {
+	if len(toks) == 0 || !strings.HasPrefix(toks[0], "U>") {
+		return // clean close (or nothing ran)
+	}
+	var r, w int
+	fmt.Sscanf(toks[0], "U>%d:%d", &r, &w)
+	wantR := cfg.max > 0
+	if cfg.kind == "s" {
+		wantR = cfg.reopen
+	}
+	if (r == 1) != wantR {
+		c.violate("OnClosedUncleanly's reopen decision is not the policy's")
+	}
+	if w != cfg.init {
+		c.violate("the first wait of an outage is not InitialWait")
+	}
+	stopAfter := 0
+	if r == 1 {
+		stopAfter = cfg.max
+		if stopAfter < 1 {
+			stopAfter = 1
+		}
+	}
+	var fs []string
+	succeeded := false
+	for _, t := range toks[1:] {
+		if strings.HasPrefix(t, "F") {
+			fs = append(fs, t)
+		} else if t == "S" {
+			succeeded = true
+		}
+	}
+	for i, f := range fs {
+		var prev, pw, fr, fw int
+		fmt.Sscanf(f, "F%d:%d>%d:%d", &prev, &pw, &fr, &fw)
+		if prev != i+1 {
+			c.violate(fmt.Sprintf("OnReopenFailed was told %d previous attempts at the %d. failure of this outage (the count must restart with every outage)", prev, i+1))
+		}
+		if i == 0 && pw != cfg.init {
+			c.violate("the wait sequence of an outage does not restart at InitialWait")
+		}
+	}
+	heals := !wasOpen && budget < stopAfter
+	switch {
+	case heals && !succeeded:
+		c.violate(fmt.Sprintf("the monitor gave up an outage the policy allows it to heal (%d failing attempts, MaxReopenAttempts %d)", budget, cfg.max))
+	case heals && len(fs) != budget:
+		c.violate("the monitor did not reopen at the first Open that could succeed")
+	case !heals && succeeded:
+		c.violate("the monitor reported a successful reopen that could not have happened")
+	case !heals && len(fs) != stopAfter:
+		c.violate(fmt.Sprintf("the monitor made %d failed attempts before giving up, the policy says %d", len(fs), stopAfter))
+	}
+}
+
 func (c *adpCtl) checkBase(cfg adpCfg) {
 	att := 0
 	for _, t := range c.monLog {
@@ -1325,7 +1388,66 @@ func runC15(r *Rng, n int) {
 	}
 }
 
+// genOutages: ONE transport, ONE monitor, SEVERAL outages, each with its own number of failing
+// reopen attempts drawn from 0..Max (Max-1 then success and exactly Max -> give up are favoured).
+func genOutages(r *Rng) ([]byte, adpCfg) {
+	var cfg adpCfg
+	if r.Chance(75) {
+		cfg = adpCfg{kind: "b", max: 1 + r.Intn(4), init: r.Intn(3)}
+		cfg.mw = cfg.init + r.Intn(4)
+	} else {
+		cfg = adpCfg{kind: "s", reopen: true, max: 1 + r.Intn(4)}
+	}
+	h := []byte{0}
+	n := 2 + r.Intn(3)
+	for i := 0; i < n && len(h) < 48; i++ {
+		k := r.Intn(cfg.max)
+		switch {
+		case r.Chance(40):
+			k = cfg.max - 1
+		case r.Chance(15):
+			k = cfg.max
+		}
+		for j := 0; j < k; j++ {
+			h = append(h, 14)
+		}
+		h = append(h, byte(r.Pick(5, 6, 7, 9))|byte(r.Intn(16))<<4)
+		if r.Chance(15) {
+			h = append(h, 2)
+		}
+		h = append(h, 15)
+		if k >= cfg.max {
+			h = append(h, 0) // the monitor has given up: the application reopens
+		}
+		if r.Chance(25) {
+			h = append(h, 3)
+		}
+	}
+	return h, cfg
+}
+
+func runC15Outage(r *Rng, n int) {
+	for i := 0; i < n; i++ {
+		h, cfg := genOutages(r)
+		o, viol := runAdp(h, cfg)
+		line := adpLine(h, cfg)
+		Case(line, o)
+		Stat("evaluations")
+		Stat("monitor:" + cfg.kind)
+		Stat(fmt.Sprintf("max=%d", cfg.max))
+		Stat(fmt.Sprintf("outages=%d", strings.Count(o, "m=U")))
+		Stat(fmt.Sprintf("healed=%d", strings.Count(o, ",S")))
+		if i < 2 {
+			Sample(map[string]interface{}{"line": line, "real": o})
+		}
+		if len(viol) > 0 {
+			OracleFail("C15: "+viol[0], map[string]interface{}{"op": "adp", "line": line, "in": hx(h), "got": o, "all": viol})
+		}
+	}
+}
+
 func init() {
+	suites["c15outage"] = runC15Outage
 	suites["c15"] = runC15
 	lineOps["adp"] = realAdpLine
 }
